@@ -12,11 +12,11 @@ theorem head?_of_getD0 {l : List (Option Nat)} {x : Nat} (h : l.getD 0 none = so
 
 section cert
 variable {h : NNet} {c : Nat} {m : NNet} {sh : Shape} {dn : Nat} {map : Array (Option Nat)} {h' : NNet}
-variable (ct : SubstCert h c m sh dn map h')
+variable (ct : SubstPre h c m sh dn map h')
 include ct
 
 /-- no two lines of the implementation end at the same pin -/
-theorem SubstCert.pinU (i1 i2 : Nat) (h1 : i1 < m.net.lines.size) (h2 : i2 < m.net.lines.size)
+theorem SubstPre.pinU (i1 i2 : Nat) (h1 : i1 < m.net.lines.size) (h2 : i2 < m.net.lines.size)
     (hr : (m.net.line i1).reader = (m.net.line i2).reader) (hp : (m.net.line i1).rpin = (m.net.line i2).rpin) : i1 = i2 := by
   have b1 := (ct.mwf.back i1 h1).2.2.2
   have b2 := (ct.mwf.back i2 h2).2.2.2
@@ -24,14 +24,14 @@ theorem SubstCert.pinU (i1 i2 : Nat) (h1 : i1 < m.net.lines.size) (h2 : i2 < m.n
   exact (Option.some.inj b1).symm
 
 /-- no two lines of the implementation start at the same pin -/
-theorem SubstCert.poutU (i1 i2 : Nat) (h1 : i1 < m.net.lines.size) (h2 : i2 < m.net.lines.size)
+theorem SubstPre.poutU (i1 i2 : Nat) (h1 : i1 < m.net.lines.size) (h2 : i2 < m.net.lines.size)
     (hr : (m.net.line i1).driver = (m.net.line i2).driver) (hp : (m.net.line i1).dpin = (m.net.line i2).dpin) : i1 = i2 := by
   have b1 := (ct.mwf.back i1 h1).2.2.1
   have b2 := (ct.mwf.back i2 h2).2.2.1
   rw [hr, hp, b2] at b1
   exact (Option.some.inj b1).symm
 
-theorem SubstCert.unmapped (j : Nat) (hj : j < m.net.nodes.size) (hn : map.getD j none = none) :
+theorem SubstPre.unmapped (j : Nat) (hj : j < m.net.nodes.size) (hn : map.getD j none = none) :
     j ∈ m.net.io ∧ ¬ (0 < (m.net.node j).ins.length ∧ 0 < (m.net.node j).outs.length) ∧
     ¬ ((m.net.node j).ins.length = 0 ∧ 1 < (m.net.node j).outs.length) := by
   have hd := ct.mapDom j hj
@@ -42,14 +42,14 @@ theorem SubstCert.unmapped (j : Nat) (hj : j < m.net.nodes.size) (hn : map.getD 
   · intro hc; exact absurd (hd.mpr (Or.inr (Or.inl hc))) (by simp)
   · intro hc; exact absurd (hd.mpr (Or.inr (Or.inr hc))) (by simp)
 
-theorem SubstCert.mapped_of (j : Nat) (hj : j < m.net.nodes.size)
+theorem SubstPre.mapped_of (j : Nat) (hj : j < m.net.nodes.size)
     (hd : j ∉ m.net.io ∨ (0 < (m.net.node j).ins.length ∧ 0 < (m.net.node j).outs.length) ∨
       ((m.net.node j).ins.length = 0 ∧ 1 < (m.net.node j).outs.length)) : ∃ x, map.getD j none = some x := by
   have := (ct.mapDom j hj).mpr hd
   exact Option.isSome_iff_exists.mp this
 
 /-- a line whose driver is not in `node_map` is the only line of an input port -/
-theorem SubstCert.unmapped_driver (i : Nat) (hi : i < m.net.lines.size) (hn : map.getD (m.net.line i).driver none = none) :
+theorem SubstPre.unmapped_driver (i : Nat) (hi : i < m.net.lines.size) (hn : map.getD (m.net.line i).driver none = none) :
     (m.net.line i).driver ∈ sh.inPorts ∧ (m.net.node (m.net.line i).driver).outs.length = 1 ∧
     (m.net.node (m.net.line i).driver).outs.head? = some (some i) := by
   obtain ⟨hd, _, ho, _⟩ := ct.mwf.back i hi
@@ -63,7 +63,7 @@ theorem SubstCert.unmapped_driver (i : Nat) (hi : i < m.net.lines.size) (hn : ma
   exact head?_of_getD0 ho
 
 /-- a line whose reader is not in `node_map` ends at an output port that is not read inside the implementation -/
-theorem SubstCert.unmapped_reader (i : Nat) (hi : i < m.net.lines.size) (hn : map.getD (m.net.line i).reader none = none) :
+theorem SubstPre.unmapped_reader (i : Nat) (hi : i < m.net.lines.size) (hn : map.getD (m.net.line i).reader none = none) :
     (m.net.line i).reader ∈ sh.outPorts ∧ (m.net.node (m.net.line i).reader).outs.length = 0 := by
   obtain ⟨_, hr, _, hin⟩ := ct.mwf.back i hi
   obtain ⟨hio, h1, h2⟩ := ct.unmapped _ hr hn
@@ -71,7 +71,7 @@ theorem SubstCert.unmapped_reader (i : Nat) (hi : i < m.net.lines.size) (hn : ma
   refine ⟨(mem_outPorts ct.shape _).mpr ⟨hio, by omega⟩, by omega⟩
 
 /-- an input port is in `node_map` only when it has several readers -/
-theorem SubstCert.inPort_mapped (inn x : Nat) (hin : inn ∈ sh.inPorts) (hm : map.getD inn none = some x) :
+theorem SubstPre.inPort_mapped (inn x : Nat) (hin : inn ∈ sh.inPorts) (hm : map.getD inn none = some x) :
     1 < (m.net.node inn).outs.length := by
   obtain ⟨hio, hins⟩ := (mem_inPorts ct.shape inn).mp hin
   have hj := ct.mapM inn x hm
@@ -82,7 +82,7 @@ theorem SubstCert.inPort_mapped (inn x : Nat) (hin : inn ∈ sh.inPorts) (hm : m
   · exact h1.2
 
 /-- the only line of an input port with one reader is not copied -/
-theorem SubstCert.single_not_copied (inn i0 : Nat) (hin : inn ∈ sh.inPorts) (hlen : (m.net.node inn).outs.length = 1)
+theorem SubstPre.single_not_copied (inn i0 : Nat) (hin : inn ∈ sh.inPorts) (hlen : (m.net.node inn).outs.length = 1)
     (hh : (m.net.node inn).outs.head? = some (some i0)) :
     i0 < m.net.lines.size ∧ (m.net.line i0).driver = inn ∧ map.getD inn none = none := by
   obtain ⟨hio, hins⟩ := (mem_inPorts ct.shape inn).mp hin
@@ -94,7 +94,7 @@ theorem SubstCert.single_not_copied (inn i0 : Nat) (hin : inn ∈ sh.inPorts) (h
   | some x => have := ct.inPort_mapped inn x hin hm; omega
 
 /-- the lines of the result: host lines, then the copies -/
-theorem SubstCert.line_split (l : Nat) (hl : l < h'.net.lines.size) :
+theorem SubstPre.line_split (l : Nat) (hl : l < h'.net.lines.size) :
     l < h.net.lines.size ∨ ∃ t, ∃ ht : t < (copiedLines m map).length, l = h.net.lines.size + t := by
   rw [ct.lsize] at hl
   by_cases h1 : l < h.net.lines.size
@@ -117,7 +117,7 @@ theorem copiedB_iff (i : Nat) : copiedB m map i = true ↔
   · rintro ⟨a, b, ha, hb⟩; exact ⟨⟨a, ha⟩, ⟨b, hb⟩⟩
 
 /-- the `t`-th copied line -/
-theorem SubstCert.new_fields (t : Nat) (ht : t < (copiedLines m map).length) :
+theorem SubstPre.new_fields (t : Nat) (ht : t < (copiedLines m map).length) :
     (copiedLines m map)[t] < m.net.lines.size ∧
     ∃ xd xr, map.getD (m.net.line (copiedLines m map)[t]).driver none = some xd ∧
       map.getD (m.net.line (copiedLines m map)[t]).reader none = some xr ∧
@@ -130,7 +130,7 @@ theorem SubstCert.new_fields (t : Nat) (ht : t < (copiedLines m map).length) :
   simp [mkLine, h1, h2]
 
 /-- a copied line has a copy -/
-theorem SubstCert.copy_of (i : Nat) (hi : i < m.net.lines.size) (xd xr : Nat)
+theorem SubstPre.copy_of (i : Nat) (hi : i < m.net.lines.size) (xd xr : Nat)
     (h1 : map.getD (m.net.line i).driver none = some xd) (h2 : map.getD (m.net.line i).reader none = some xr) :
     ∃ t, ∃ ht : t < (copiedLines m map).length, (copiedLines m map)[t] = i ∧
       h'.net.line (h.net.lines.size + t) = ⟨xd, (m.net.line i).dpin, xr, (m.net.line i).rpin⟩ := by
@@ -141,7 +141,7 @@ theorem SubstCert.copy_of (i : Nat) (hi : i < m.net.lines.size) (xd xr : Nat)
   simp [mkLine, h1, h2]
 
 /-- a host line that ends at a node of `node_map` afterwards is a line at an input pin of the instance -/
-theorem SubstCert.host_reader_own (l x : Nat) (hl : l < h.net.lines.size) (hr : (h'.net.line l).reader = x)
+theorem SubstPre.host_reader_own (l x : Nat) (hl : l < h.net.lines.size) (hr : (h'.net.line l).reader = x)
     (hx : x = c ∨ h.net.nodes.size ≤ x) : ∃ k, instIn h c k = some l := by
   by_cases e : (h.net.line l).reader = c
   · refine ⟨(h.net.line l).rpin, ?_⟩
@@ -154,7 +154,7 @@ theorem SubstCert.host_reader_own (l x : Nat) (hl : l < h.net.lines.size) (hr : 
     · exact absurd (f.symm.trans hx) e
     · omega
 
-theorem SubstCert.host_driver_own (l x : Nat) (hl : l < h.net.lines.size) (hr : (h'.net.line l).driver = x)
+theorem SubstPre.host_driver_own (l x : Nat) (hl : l < h.net.lines.size) (hr : (h'.net.line l).driver = x)
     (hx : x = c ∨ h.net.nodes.size ≤ x) : ∃ k, instOut h c k = some l := by
   by_cases e : (h.net.line l).driver = c
   · refine ⟨(h.net.line l).dpin, ?_⟩
